@@ -233,7 +233,15 @@ def r1(ctx):
     ctx.check("C15.R1", bool(sn_store) and SNV is not None and norm(sn_store[0].ast.value) == SNV, key(f, "script-name-same"), site(f), "SCRIPT_NAME in environ is not the prefix that was removed from the path", "SCRIPT_NAME <- the removed prefix")
     # wsgi.url_scheme
     us = [s for s in g.stmts(ast.Assign) if any(isinstance(t, ast.Subscript) and const(t.slice, NO) == "wsgi.url_scheme" for t in s.ast.targets)]
-    ctx.check("C15.R1", bool(us) and norm(us[0].ast.value) == "%s.scheme" % f.params[0], key(f, "prov|wsgi.url_scheme"), site(f), "wsgi.url_scheme is not req.scheme", "url_scheme <- req.scheme")
+    def _is_req_scheme(e, depth=0):
+        # `req.scheme`, or a local assigned exactly once from it (a hoisted read of a plain attribute)
+        if norm(e) == "%s.scheme" % f.params[0]:
+            return True
+        if isinstance(e, ast.Name) and depth < 3:
+            ss = stores_to_name(f, e.id)
+            return len(ss) == 1 and isinstance(ss[0].ast, ast.Assign) and _is_req_scheme(ss[0].ast.value, depth + 1)
+        return False
+    ctx.check("C15.R1", bool(us) and _is_req_scheme(us[0].ast.value), key(f, "prov|wsgi.url_scheme"), site(f), "wsgi.url_scheme is not req.scheme", "url_scheme <- req.scheme")
 
 
 def _names_latin1(c):
